@@ -20,7 +20,7 @@ ID = 'C01'
 
 MANIFEST = dict(
     technique='explicit-state enumeration of page models (all structures x all reading orders; deviation-bounded field combinations; full field product on one line) x both PAGE versions; real to_pagexml_string / from_pagexml_string / PageLayout(file=) vs a rounding reference model and the export fixpoint',
-    text='Bounded exhaustive: every page of 0-3 regions x 0-2 lines with every reading order (absent, empty, every partial and complete order, unknown ids) in both PAGE versions via string and file/constructor paths; every combination of <= 2 (quick) / 3 (thorough) non-default field values on a 2x2 page; the full product of baseline x polygon x heights x transcription (17 Unicode classes) x confidence x index alphabets on one line. The re-loaded page must equal the reference model (documented rounding, absent vs empty text, order by reading index), and export(import(export(import(export(p))))) must equal export(import(export(p))) modulo timestamps. Added sub-sweeps: point lists held as python lists / int32 / float32 arrays, explicitly closed rings, white-space-only transcriptions, zero and sub-precision heights, a page of 12 regions x 12 lines with reading orders moving r10-r12, a 12-point baseline without stored heights, and a second import after the first one was edited in place. In the quick tier the one-line product is heights x default text fields plus text x confidence x index x two heights; the thorough tier runs the full product.',
+    text='Bounded exhaustive: every page of 0-3 regions x 0-2 lines with every reading order (absent, empty, every partial and complete order, unknown ids) in both PAGE versions via string and file/constructor paths; every combination of <= 2 (quick) / 3 (thorough) non-default field values on a 2x2 page; the full product of baseline x polygon x heights x transcription (17 Unicode classes) x confidence x index alphabets on one line. The re-loaded page must equal the reference model (documented rounding, absent vs empty text, order by reading index), and export(import(export(import(export(p))))) must equal export(import(export(p))) modulo timestamps. Added sub-sweeps: point lists held as python lists / int32 / float32 arrays, explicitly closed rings, white-space-only transcriptions, zero and sub-precision heights, a page of 12 regions x 12 lines with reading orders moving r10-r12, a 12-point baseline without stored heights, and a second import after the first one was edited in place. In the quick tier the one-line product is heights x default text fields plus text x confidence x index x two heights; the thorough tier runs the full product. A page that has been exported is exported again after its region list was re-arranged (reading order unchanged).',
     note='Characters outside the 17-entry transcription alphabet, pages larger than 3x2 and PAGE files of other tools (Point children, legacy heights) are not explored; absent heights are guessed on load with the seeded RNG (presence + fixpoint only).',
     ref='3/C01')
 
